@@ -441,7 +441,7 @@ def _do_cut(asm, toks, block, tmpl_line):
             asm.negctl_skipped.append({'of': fname, 'from': frm, 'to': to, 'why': 'text to edit not present in the cut'})
             continue
         mt = mt[:idx] + to + mt[idx + len(frm):]
-        nm = '%s__negctl%d' % (fname, k)
+        nm = '%s__negctl%d' % (fname, len(asm.negctl) + 1)
         if kind == 'fn':
             mt = re.sub(r'\bfn\s+' + re.escape(fname) + r'\b', 'fn ' + nm, mt, count=1)
         else:
